@@ -148,6 +148,7 @@ func (r *Runtime) arrayproto_pop(call FunctionCall) Value {
 			//a._setLengthInt(l, false)
 			a.values[l] = nil
 			a.values = a.values[:l]
+			a.objCount--
 		} else {
 			val = _undefined
 		}
@@ -565,7 +566,7 @@ func (r *Runtime) arrayproto_unshift(call FunctionCall) Value {
 				arr.values = values
 			}
 			copy(arr.values, call.Arguments)
-			arr.objCount = int(arr.length)
+			arr.objCount = len(arr.values)
 		} else {
 			for k := length - 1; k >= 0; k-- {
 				from := valueInt(k)
@@ -811,15 +812,18 @@ func (r *Runtime) arrayproto_map(call FunctionCall) Value {
 	if _, stdSrc := o.self.(*arrayObject); stdSrc {
 		if arr, ok := a.self.(*arrayObject); ok {
 			values := make([]Value, length)
+			count := 0
 			for k := int64(0); k < length; k++ {
 				idx := valueInt(k)
 				if val := o.self.getIdx(idx, nil); val != nil {
 					fc.Arguments[0] = val
 					fc.Arguments[1] = idx
 					values[k] = callbackFn(fc)
+					count++
 				}
 			}
 			setArrayValues(arr, values)
+			arr.objCount = count // holes of the source stay holes
 			return a
 		}
 	}
@@ -1031,6 +1035,7 @@ func (r *Runtime) arrayproto_shift(call FunctionCall) Value {
 		a.values[len(a.values)-1] = nil
 		a.values = a.values[:len(a.values)-1]
 		a.length--
+		a.objCount--
 		return first
 	}
 	length := toLength(o.self.getStr("length", nil))
